@@ -11,17 +11,21 @@
       every position [i] whose OTHER positions are all marked non-terminals, [Xi = NT B] implies
       [rk B < rk A].  This excludes [A =>+ A].
     - [stack_rank_ok g tb nl ann E srk] (table, through the annotation that [lr_safe_check]
-      validates).  [E] is a CHECKED certificate set of pairs (state [s], non-terminal [x]): "an
-      entry for [x] with an EMPTY subtree may be pushed directly on state [s]".  [eps_closed]
-      checks that [E] is closed: for every production [p] whose right-hand side [X1..Xn]
-      consists of marked non-terminals only and every state [t0], if the goto chain
-      [t0 -X1-> t1 .. -Xn-> tn] exists with [(t(i-1), Xi)] in [E] at every step and [tn] has an
-      action [Reduce (lhs p) p], then [(t0, lhs p)] is in [E].  The rank part: every state [s']
-      other than 0 has a known incoming symbol [x] and a set [c] of states it may sit on; if [x]
-      is a marked non-terminal then [srk s' < srk s] for every [s] in [c] with [(s, x)] in [E].
-      This bounds the number of consecutive parser-stack entries that carry an empty subtree.
-      It is NEEDED: [lr_safe_check] is a safety check only, and the statement without this
-      hypothesis is false, see [lr_terminates_refuted].
+      validates).  Everything is indexed by the LOOKAHEAD terminal: while entries with empty
+      subtrees are stacked no token is shifted, so the lookahead does not change.  [E] is a
+      CHECKED certificate set of triples (lookahead [la], state [s], non-terminal [x]): "under
+      lookahead [la] an entry for [x] with an EMPTY subtree may be pushed directly on state [s]".
+      [eps_closed] checks that [E] is closed: for every terminal [la] that is an action key of
+      the table (and 0), every production [p] whose right-hand side [X1..Xn] consists of marked
+      non-terminals only and every state [t0], if the goto chain [t0 -X1-> t1 .. -Xn-> tn]
+      exists with [(la, t(i-1), Xi)] in [E] at every step and the action of [tn] for [la] (first
+      match) is [Reduce (lhs p) p], then [(la, t0, lhs p)] is in [E].  [srk] gives one state
+      ranking per lookahead.  The rank part: every state [s'] other than 0 has a known incoming
+      symbol [x] and a set [c] of states it may sit on; if [x] is a marked non-terminal then
+      for every [la] and every [s] in [c] with [(la, s, x)] in [E] the [la]-rank of [s'] is
+      smaller than that of [s].  This bounds the length of every run of adjacent parser-stack
+      entries that carry an empty subtree.  It is NEEDED: [lr_safe_check] is a safety check
+      only, and the statement without this hypothesis is false, see [lr_terminates_refuted].
 
     Main results
       [eps_tree_bound], [tree_size_bound]  size of derivation trees of certified grammars;
@@ -30,7 +34,7 @@
       [lr_terminates_refuted]              the statement without [stack_rank_ok] is false;
       [cyc_never_acyclic], [cyc_loops]     the cyclic grammar [S: A; A: A | 'a'] has no certificate
                                            and its (validated) table loops for ever.
-      [amb_terminates_instance], [bae_terminates_instance]
+      [amb_terminates_instance], [bae_terminates_instance], [dla_terminates_instance]
                                            real tables with resolved conflicts pass.
     Executable (extraction): [acyclic_ok], [stack_rank_ok] (with [eps_closed], [eps_edge]),
       [find_acyclic_cert], [find_eps_set], [find_stack_ranks], [lr_fuel_bound]. *)
@@ -89,9 +93,11 @@ Fixpoint forallbi {A : Type} (f : N -> A -> bool) (i : N) (l : list A) : bool :=
   | a :: l' => f i a && forallbi f (N.succ i) l'
   end.
 
-(** [eps_edge E s a]: the pair (state [s], non-terminal [a]) is in the certificate set. *)
-Definition eps_edge (E : list (N * N)) (s a : N) : bool :=
-  existsb (fun e => N.eqb (fst e) s && N.eqb (snd e) a) E.
+Definition etriple := (N * N * N)%type.     (* (lookahead, state, non-terminal) *)
+
+(** [eps_edge E la s a]: the triple is in the certificate set. *)
+Definition eps_edge (E : list etriple) (la s a : N) : bool :=
+  existsb (fun e => N.eqb (fst (fst e)) la && N.eqb (snd (fst e)) s && N.eqb (snd e) a) E.
 
 (** [LRParseTable::goto] without the panics. *)
 Definition goto_of (tb : lr_table) (s a : N) : option N :=
@@ -100,56 +106,86 @@ Definition goto_of (tb : lr_table) (s a : N) : option N :=
   | None => None
   end.
 
-(** Follow the gotos from [t] along [l], every step being in [E]; the state reached. *)
-Fixpoint eps_chain (tb : lr_table) (E : list (N * N)) (t : N) (l : list sym) : option N :=
+(** Follow the gotos from [t] along [l], every step being in [E] for [la]; the state reached. *)
+Fixpoint eps_chain (tb : lr_table) (E : list etriple) (la t : N) (l : list sym) : option N :=
   match l with
   | [] => Some t
   | NT a :: l' =>
-      if eps_edge E t a
+      if eps_edge E la t a
       then match goto_of tb t a with
-           | Some t' => eps_chain tb E t' l'
+           | Some t' => eps_chain tb E la t' l'
            | None => None
            end
       else None
   | T _ :: _ => None
   end.
 
-(** State [s] has some action entry whose action is [Reduce a p]. *)
-Definition has_reduce (tb : lr_table) (s a p : N) : bool :=
+(** The action of state [s] for terminal [la] (first match, as [LR1State::action_index]) is
+    [Reduce a p]. *)
+Definition red_on (tb : lr_table) (s la a p : N) : bool :=
   match nth_error (lr_states tb) (N.to_nat s) with
   | None => false
   | Some st =>
-      existsb (fun e => match nth_error (lr_actions tb) (N.to_nat (snd e)) with
-                        | Some (Reduce nt p') => N.eqb nt a && N.eqb p' p
-                        | _ => false
-                        end) (st_actions st)
+      match assoc la (st_actions st) with
+      | None => false
+      | Some ai =>
+          match nth_error (lr_actions tb) (N.to_nat ai) with
+          | Some (Reduce nt p') => N.eqb nt a && N.eqb p' p
+          | _ => false
+          end
+      end
   end.
 
-Definition eps_closed (g : cfg) (tb : lr_table) (nl : list bool) (E : list (N * N)) : bool :=
+Definition dedupN (l : list N) : list N :=
+  fold_right (fun x acc => if memN x acc then acc else x :: acc) [] l.
+
+(** The lookaheads that can select an action: the action keys of the table, and 0. *)
+Definition table_las (tb : lr_table) : list N :=
+  dedupN (0%N :: flat_map (fun st => map fst (st_actions st)) (lr_states tb)).
+
+Definition eps_closed_la (g : cfg) (tb : lr_table) (nl : list bool) (E : list etriple) (la : N)
+  : bool :=
   forallbi (fun p pr =>
               if forallb (null_sym nl) (rhs pr)
               then forallbi (fun t0 (_ : lr_state) =>
-                               match eps_chain tb E t0 (rhs pr) with
-                               | Some tn => implb (has_reduce tb tn (lhs pr) p) (eps_edge E t0 (lhs pr))
+                               match eps_chain tb E la t0 (rhs pr) with
+                               | Some tn => implb (red_on tb tn la (lhs pr) p)
+                                                  (eps_edge E la t0 (lhs pr))
                                | None => true
                                end) 0%N (lr_states tb)
               else true) 0%N (prods g).
 
-Definition stack_state_ok (nl : list bool) (E : list (N * N)) (srk : list N)
+Definition eps_closed (g : cfg) (tb : lr_table) (nl : list bool) (E : list etriple) : bool :=
+  forallb (eps_closed_la g tb nl E) (table_las tb).
+
+(** State ranking for lookahead [la]; a missing entry is the empty ranking, with which every
+    comparison fails. *)
+Definition ranks_for (srk : list (N * list N)) (la : N) : list N :=
+  match find (fun e => N.eqb (fst e) la) srk with
+  | Some e => snd e
+  | None => []
+  end.
+
+Definition stack_state_ok (nl : list bool) (E : list etriple) (la : N) (r : list N)
   (s' : N) (l : list ann_entry) : bool :=
-  if N.eqb s' 0 then true
-  else match l with
-       | [] => false
-       | (NT a, c) :: _ =>
-           if marked nl a
-           then forallb (fun s => implb (eps_edge E s a) (srk_lt srk s' s)) c
-           else true
-       | (T _, _) :: _ => true
-       end.
+  match l with
+  | (NT a, c) :: _ =>
+      if marked nl a
+      then forallb (fun s => implb (eps_edge E la s a) (srk_lt r s' s)) c
+      else true
+  | _ => true
+  end.
+
+(** Every state other than 0 has a known incoming symbol. *)
+Definition ann_heads_ok (ann : annotation) : bool :=
+  forallbi (fun s' (l : list ann_entry) =>
+              N.eqb s' 0 || match l with [] => false | _ :: _ => true end) 0%N ann.
 
 Definition stack_rank_ok (g : cfg) (tb : lr_table) (nullable : list bool) (ann : annotation)
-  (E : list (N * N)) (srk : list N) : bool :=
-  eps_closed g tb nullable E && forallbi (stack_state_ok nullable E srk) 0%N ann.
+  (E : list etriple) (srk : list (N * list N)) : bool :=
+  eps_closed g tb nullable E && ann_heads_ok ann &&
+  forallb (fun la => forallbi (stack_state_ok nullable E la (ranks_for srk la)) 0%N ann)
+          (dedupN (map (fun e => fst (fst e)) E)).
 
 (** ** Certificate search (UNVERIFIED by design: results are only used through the checks) *)
 Definition maxN (l : list N) : N := fold_left N.max l 0%N.
@@ -217,33 +253,37 @@ Fixpoint foldi {A B : Type} (f : N -> A -> B -> B) (i : N) (l : list A) (b : B) 
   | a :: l' => foldi f (N.succ i) l' (f i a b)
   end.
 
-(** One pass of the closure: add every pair that [eps_closed] demands. *)
-Definition eps_pass (g : cfg) (tb : lr_table) (nl : list bool) (E : list (N * N))
-  : list (N * N) * bool :=
-  foldi (fun p pr (acc : list (N * N) * bool) =>
+(** One pass of the closure for lookahead [la]: add every triple that [eps_closed] demands. *)
+Definition eps_pass (g : cfg) (tb : lr_table) (nl : list bool) (la : N) (E : list etriple)
+  : list etriple * bool :=
+  foldi (fun p pr (acc : list etriple * bool) =>
            if forallb (null_sym nl) (rhs pr)
-           then foldi (fun t0 (_ : lr_state) (acc' : list (N * N) * bool) =>
+           then foldi (fun t0 (_ : lr_state) (acc' : list etriple * bool) =>
                          let (E', ch) := acc' in
-                         if eps_edge E' t0 (lhs pr) then acc'
-                         else match eps_chain tb E' t0 (rhs pr) with
-                              | Some tn => if has_reduce tb tn (lhs pr) p
-                                           then ((t0, lhs pr) :: E', true) else acc'
+                         if eps_edge E' la t0 (lhs pr) then acc'
+                         else match eps_chain tb E' la t0 (rhs pr) with
+                              | Some tn => if red_on tb tn la (lhs pr) p
+                                           then ((la, t0, lhs pr) :: E', true) else acc'
                               | None => acc'
                               end) 0%N (lr_states tb) acc
            else acc) 0%N (prods g) (E, false).
 
-Fixpoint eps_loop (fuel : nat) (g : cfg) (tb : lr_table) (nl : list bool) (E : list (N * N))
-  : list (N * N) :=
+Fixpoint eps_loop (fuel : nat) (g : cfg) (tb : lr_table) (nl : list bool) (la : N)
+  (E : list etriple) : list etriple :=
   match fuel with
   | O => E
-  | S fuel' => let (E', ch) := eps_pass g tb nl E in if ch then eps_loop fuel' g tb nl E' else E'
+  | S fuel' => let (E', ch) := eps_pass g tb nl la E in
+               if ch then eps_loop fuel' g tb nl la E' else E'
   end.
 
-(** Least closed set: every pass that changes something adds a new (state, non-terminal) pair. *)
-Definition find_eps_set (g : cfg) (tb : lr_table) (nl : list bool) : list (N * N) :=
-  eps_loop (S (length (lr_states tb) * nt_count g)) g tb nl [].
+(** Least closed set, lookahead by lookahead: every pass that changes something adds a new
+    (state, non-terminal) pair. *)
+Definition find_eps_set (g : cfg) (tb : lr_table) (nl : list bool) : list etriple :=
+  flat_map (fun la => eps_loop (S (length (lr_states tb) * nt_count g)) g tb nl la [])
+           (table_las tb).
 
-Definition stack_edges (nl : list bool) (E : list (N * N)) (ann : annotation) : list (N * N) :=
+Definition stack_edges (nl : list bool) (E : list etriple) (la : N) (ann : annotation)
+  : list (N * N) :=
   (fix go (i : N) (a : annotation) : list (N * N) :=
      match a with
      | [] => []
@@ -251,13 +291,17 @@ Definition stack_edges (nl : list bool) (E : list (N * N)) (ann : annotation) : 
          (match l with
           | (NT x, c) :: _ =>
               if marked nl x
-              then map (fun s => (s, i)) (filter (fun s => eps_edge E s x) c) else []
+              then map (fun s => (s, i)) (filter (fun s => eps_edge E la s x) c) else []
           | _ => []
           end) ++ go (N.succ i) a'
      end) 0%N ann.
 
-Definition find_stack_ranks (nl : list bool) (ann : annotation) (E : list (N * N)) : list N :=
-  relax_loop (S (length ann)) (stack_edges nl E ann) (repeat 0%N (length ann)).
+(** One ranking per lookahead that occurs in [E]. *)
+Definition find_stack_ranks (nl : list bool) (ann : annotation) (E : list etriple)
+  : list (N * list N) :=
+  map (fun la => (la, relax_loop (S (length ann)) (stack_edges nl E la ann)
+                                 (repeat 0%N (length ann))))
+      (dedupN (map (fun e => fst (fst e)) E)).
 
 (** ** Size of derivation trees of certified grammars *)
 Definition nodes (t : tree) : nat := length (postorder t).
@@ -581,13 +625,16 @@ End TreeBound.
 
 (** ** Termination *)
 
-(** Number of loop iterations that suffice for an input of [n] significant tokens.  [srk] is the
-    state ranking of [stack_rank_ok]. *)
-Definition step_bound (g : cfg) (rk srk : list N) (n : nat) : nat :=
-  n + node_cost g rk * (2 * n * S (max_rank rk) + max_rank srk * (n + 1) + n).
+(** Number of loop iterations that suffice for an input of [n] significant tokens.  [K] bounds the
+    state ranks of [stack_rank_ok] (all lookaheads). *)
+Definition step_bound (g : cfg) (rk : list N) (K : nat) (n : nat) : nat :=
+  n + node_cost g rk * (2 * n * S (max_rank rk) + K * (n + 1) + n).
 
-Definition lr_fuel_bound (g : cfg) (rk srk : list N) (toks : list N) : nat :=
-  S (step_bound g rk srk (length toks)).
+Definition max_rank_all (srk : list (N * list N)) : nat :=
+  fold_left (fun m e => Nat.max m (max_rank (snd e))) srk 0.
+
+Definition lr_fuel_bound (g : cfg) (rk : list N) (srk : list (N * list N)) (toks : list N) : nat :=
+  S (step_bound g rk (max_rank_all srk) (length toks)).
 
 Lemma forallbi_nth {A} (f : N -> A -> bool) l : forall i k a,
   forallbi f i l = true -> nth_error l k = Some a -> f (i + N.of_nat k)%N a = true.
@@ -637,17 +684,38 @@ Proof.
     destruct (call_action tb p0 ts) as [site|[n ts']]; discriminate.
 Qed.
 
-(** What the table check gives for one state (no other hypothesis needed). *)
-Lemma stack_rank_ok_spec g tb nl ann E srk s a c l' s1 :
-  stack_rank_ok g tb nl ann E srk = true ->
-  ann_of ann s = Some ((NT a, c) :: l') -> s <> 0%N -> marked nl a = true ->
-  In s1 c -> eps_edge E s1 a = true -> srk_lt srk s s1 = true.
+Lemma memN_true_In x l : memN x l = true -> In x l.
 Proof.
-  intros Hsr Hl Hne Hm Hin He. unfold stack_rank_ok in Hsr. apply andb_prop in Hsr.
-  destruct Hsr as [_ Hsr]. unfold ann_of in Hl.
-  pose proof (forallbi_nth _ _ _ _ _ Hsr Hl) as H.
+  unfold memN. intros H. apply existsb_exists in H. destruct H as (y & Hy & Ey).
+  apply N.eqb_eq in Ey. subst y. exact Hy.
+Qed.
+
+Lemma dedupN_In x l : In x l -> In x (dedupN l).
+Proof.
+  induction l as [|y l IH]; intros H; [contradiction|]. simpl.
+  destruct (memN y (dedupN l)) eqn:Em.
+  - destruct H as [<-|H]; [apply memN_true_In; exact Em|apply IH; exact H].
+  - destruct H as [<-|H]; [left; reflexivity|right; apply IH; exact H].
+Qed.
+
+Lemma eps_edge_la E la s a : eps_edge E la s a = true -> In la (map (fun e => fst (fst e)) E).
+Proof.
+  unfold eps_edge. intros H. apply existsb_exists in H. destruct H as (e & He & Hb).
+  apply andb_prop in Hb. destruct Hb as [Hb _]. apply andb_prop in Hb. destruct Hb as [Hb _].
+  apply N.eqb_eq in Hb. subst la. apply in_map_iff. exists e. split; [reflexivity|exact He].
+Qed.
+
+(** What the table check gives for one state (no other hypothesis needed). *)
+Lemma stack_rank_ok_spec g tb nl ann E srk la s a c l' s1 :
+  stack_rank_ok g tb nl ann E srk = true ->
+  ann_of ann s = Some ((NT a, c) :: l') -> marked nl a = true ->
+  In s1 c -> eps_edge E la s1 a = true -> srk_lt (ranks_for srk la) s s1 = true.
+Proof.
+  intros Hsr Hl Hm Hin He. unfold stack_rank_ok in Hsr. apply andb_prop in Hsr.
+  destruct Hsr as [_ Hsr]. rewrite forallb_forall in Hsr.
+  specialize (Hsr la (dedupN_In _ _ (eps_edge_la _ _ _ _ He))). unfold ann_of in Hl.
+  pose proof (forallbi_nth _ _ _ _ _ Hsr Hl) as H. unfold stack_state_ok in H.
   replace (0 + N.of_nat (N.to_nat s))%N with s in H by lia.
-  unfold stack_state_ok in H. destruct (N.eqb_spec s 0) as [E0|_]; [contradiction|].
   rewrite Hm in H. rewrite forallb_forall in H. specialize (H s1 Hin). rewrite He in H. exact H.
 Qed.
 
@@ -655,21 +723,23 @@ Lemma stack_rank_ok_nonempty g tb nl ann E srk s :
   stack_rank_ok g tb nl ann E srk = true -> ann_of ann s = Some [] -> s = 0%N.
 Proof.
   intros Hsr Hl. unfold stack_rank_ok in Hsr. apply andb_prop in Hsr.
-  destruct Hsr as [_ Hsr]. unfold ann_of in Hl.
-  pose proof (forallbi_nth _ _ _ _ _ Hsr Hl) as H.
+  destruct Hsr as [Hsr _]. apply andb_prop in Hsr. destruct Hsr as [_ Hsr].
+  unfold ann_heads_ok in Hsr. unfold ann_of in Hl.
+  pose proof (forallbi_nth _ _ _ _ _ Hsr Hl) as H. cbv beta in H.
   replace (0 + N.of_nat (N.to_nat s))%N with s in H by lia.
-  unfold stack_state_ok in H. destruct (N.eqb_spec s 0) as [E0|_]; [exact E0|discriminate].
+  destruct (N.eqb_spec s 0) as [E0|_]; [exact E0|discriminate].
 Qed.
 
 (** What closedness of the certificate set gives. *)
-Lemma eps_closed_spec g tb nl E p pr t0 st0 tn :
-  eps_closed g tb nl E = true ->
+Lemma eps_closed_spec g tb nl E la p pr t0 st0 tn :
+  eps_closed g tb nl E = true -> In la (table_las tb) ->
   nth_error (prods g) (N.to_nat p) = Some pr -> forallb (null_sym nl) (rhs pr) = true ->
   nth_error (lr_states tb) (N.to_nat t0) = Some st0 ->
-  eps_chain tb E t0 (rhs pr) = Some tn -> has_reduce tb tn (lhs pr) p = true ->
-  eps_edge E t0 (lhs pr) = true.
+  eps_chain tb E la t0 (rhs pr) = Some tn -> red_on tb tn la (lhs pr) p = true ->
+  eps_edge E la t0 (lhs pr) = true.
 Proof.
-  intros Hc Hp Hall Ht Hch Hred. unfold eps_closed in Hc.
+  intros Hc Hla Hp Hall Ht Hch Hred. unfold eps_closed in Hc. rewrite forallb_forall in Hc.
+  specialize (Hc la Hla). unfold eps_closed_la in Hc.
   pose proof (forallbi_nth _ _ _ _ _ Hc Hp) as H. cbv beta in H.
   replace (0 + N.of_nat (N.to_nat p))%N with p in H by lia. rewrite Hall in H.
   pose proof (forallbi_nth _ _ _ _ _ H Ht) as H'. cbv beta in H'.
@@ -677,9 +747,12 @@ Proof.
   rewrite Hch, Hred in H'. exact H'.
 Qed.
 
-Lemma memN_In x l : In x l -> memN x l = true.
+Lemma ranks_for_le srk la : max_rank (ranks_for srk la) <= max_rank_all srk.
 Proof.
-  intros H. unfold memN. apply existsb_exists. exists x. split; [exact H|apply N.eqb_refl].
+  unfold ranks_for, max_rank_all. destruct (find (fun e => N.eqb (fst e) la) srk) as [e|] eqn:Ef.
+  - apply find_some in Ef. destruct Ef as [Hin _].
+    apply (proj2 (fold_max_ge (fun e : N * list N => max_rank (snd e)) srk 0) e Hin).
+  - unfold max_rank, maxN. simpl. lia.
 Qed.
 
 Definition is_eps (t : tree) : bool := match yield t with [] => true | _ :: _ => false end.
@@ -690,65 +763,82 @@ Section Termination.
   Variable ann : annotation.
   Variable nl : list bool.
   Variable rk : list N.
-  Variable E : list (N * N).
-  Variable srk : list N.
+  Variable E : list etriple.
+  Variable srk : list (N * list N).
   Hypothesis Hchk : lr_safe_check g tb ann = true.
   Hypothesis Hac : acyclic_ok g nl rk = true.
   Hypothesis Hsr : stack_rank_ok g tb nl ann E srk = true.
 
-  Let K := max_rank srk.
+  Let K := max_rank_all srk.
   Let W := S (max_rank rk).
   Let D := node_cost g rk.
 
   Lemma Hclosed : eps_closed g tb nl E = true.
-  Proof. unfold stack_rank_ok in Hsr. apply andb_prop in Hsr. apply Hsr. Qed.
-
-  (** Every entry with an empty subtree and root [a], sitting directly on state [s] under state
-      [s'], is certified by [E], and [s'] is the goto of [s] on [a]. *)
-  Inductive eps_inv : list N -> list tree -> Prop :=
-  | ei_base s : eps_inv [s] []
-  | ei_push s' s ss t ts :
-      eps_inv (s :: ss) ts ->
-      (yield t = [] -> forall a, root_sym t = NT a ->
-         eps_edge E s a = true /\ goto_of tb s a = Some s') ->
-      eps_inv (s' :: s :: ss) (t :: ts).
-
-  Lemma eps_inv_skipn n : forall ss ts,
-    eps_inv ss ts -> n < length ss -> eps_inv (skipn n ss) (skipn n ts).
   Proof.
-    induction n as [|n IH]; intros ss ts H Hn; [exact H|].
-    inversion H as [s|s' s ss' t ts' H' He]; subst; simpl in Hn; [lia|].
-    simpl. apply IH; [exact H'|simpl; lia].
+    unfold stack_rank_ok in Hsr. apply andb_prop in Hsr. destruct Hsr as [H _].
+    apply andb_prop in H. apply H.
   Qed.
 
-  (** The popped entries of a reduction with an empty result form a certified goto chain from
-      the exposed state up to the reducing state. *)
-  Lemma eps_inv_chain n : forall ss ts top rest',
-    eps_inv ss ts -> ss = top :: rest' -> n < length ss ->
+  (** [runs_inv w ss ts]: every maximal run of adjacent entries with empty subtrees has ONE
+      lookahead [la] such that every entry of the run (root [a], sitting on state [s] under state
+      [s']) has [(la, s, a)] in [E] and [s' = goto s a].  [w] is the witness of the run that the
+      top entry belongs to ([None]: the top entry has a non-empty subtree, or there is none). *)
+  Inductive runs_inv : option N -> list N -> list tree -> Prop :=
+  | ri_base s : runs_inv None [s] []
+  | ri_solid w s' s ss t ts :
+      runs_inv w (s :: ss) ts -> yield t <> [] -> runs_inv None (s' :: s :: ss) (t :: ts)
+  | ri_eps w la s' s ss t ts a :
+      runs_inv w (s :: ss) ts -> yield t = [] -> root_sym t = NT a ->
+      eps_edge E la s a = true -> goto_of tb s a = Some s' ->
+      (w = None \/ w = Some la) ->
+      runs_inv (Some la) (s' :: s :: ss) (t :: ts).
+
+  Lemma runs_inv_skipn n : forall w ss ts,
+    runs_inv w ss ts -> n < length ss -> exists w', runs_inv w' (skipn n ss) (skipn n ts).
+  Proof.
+    induction n as [|n IH]; intros w ss ts H Hn; [exists w; exact H|].
+    inversion H as [s|w0 s' s ss' t ts' H' Hy|w0 la s' s ss' t ts' a H' Hy Hr He Hg Hw]; subst;
+      simpl in Hn; [lia| |]; simpl; apply (IH w0); try exact H'; simpl; lia.
+  Qed.
+
+  (** The popped entries of a reduction with an empty result all belong to the top run; they form
+      a certified goto chain for its lookahead from the exposed state up to the reducing state. *)
+  Lemma runs_inv_chain la n : forall w ss ts top rest',
+    runs_inv w ss ts -> ss = top :: rest' -> n < length ss -> (w = None \/ w = Some la) ->
     (forall c, In c (firstn n ts) -> yield c = [] /\ exists a, root_sym c = NT a) ->
-    exists t0 rest, skipn n ss = t0 :: rest /\
-      forall l tfin, eps_chain tb E top l = Some tfin ->
-                     eps_chain tb E t0 (map root_sym (rev (firstn n ts)) ++ l) = Some tfin.
+    exists t0 rest w', skipn n ss = t0 :: rest /\ runs_inv w' (t0 :: rest) (skipn n ts) /\
+      (w' = None \/ w' = Some la) /\
+      forall l tfin, eps_chain tb E la top l = Some tfin ->
+                     eps_chain tb E la t0 (map root_sym (rev (firstn n ts)) ++ l) = Some tfin.
   Proof.
-    induction n as [|n IH]; intros ss ts top rest' H Ess Hn Hall; subst ss.
-    - exists top, rest'. split; [reflexivity|]. intros l tfin Hl. exact Hl.
-    - inversion H as [s|s' s ss' t ts' H' He]; subst; [simpl in Hn; lia|].
-      destruct (Hall t (or_introl eq_refl)) as (Hy & a & Hroot).
-      destruct (He Hy a Hroot) as (Hedge & Hgoto).
-      assert (Hn' : n < length (s :: ss')) by (simpl in Hn |- *; lia).
-      destruct (IH (s :: ss') ts' s ss' H' eq_refl Hn') as (t0 & rest & Hsk & Hch).
-      { intros c Hc. apply Hall. right. exact Hc. }
-      exists t0, rest. split; [exact Hsk|]. intros l tfin Hl.
-      cbn [firstn rev]. rewrite map_app, <- app_assoc. cbn [map app]. apply Hch.
-      rewrite Hroot. cbn [eps_chain]. rewrite Hedge, Hgoto. exact Hl.
+    induction n as [|n IH]; intros w ss ts top rest' H Ess Hn Hw Hall; subst ss.
+    - exists top, rest', w. split; [reflexivity|]. split; [exact H|]. split; [exact Hw|].
+      intros l tfin Hl. exact Hl.
+    - inversion H as [s|w0 s' s ss' t ts' H' Hy|w0 la0 s' s ss' t ts' a H' Hy Hr He Hg Hw0]; subst.
+      + simpl in Hn. lia.
+      + destruct (Hall t (or_introl eq_refl)) as (Hy0 & _). contradiction.
+      + assert (la0 = la) by (destruct Hw as [Hw|Hw]; [discriminate|inversion Hw; reflexivity]).
+        subst la0.
+        assert (Hn' : n < length (s :: ss')) by (simpl in Hn |- *; lia).
+        destruct (IH w0 (s :: ss') ts' s ss' H' eq_refl Hn' Hw0)
+          as (t0 & rest & w' & Hsk & Hinv & Hw' & Hch).
+        { intros c Hc. apply Hall. right. exact Hc. }
+        exists t0, rest, w'. split; [exact Hsk|]. split; [exact Hinv|]. split; [exact Hw'|].
+        intros l tfin Hl.
+        cbn [firstn rev]. rewrite map_app, <- app_assoc. cbn [map app]. apply Hch.
+        rewrite Hr. cbn [eps_chain]. rewrite He, Hg. exact Hl.
   Qed.
+
+  (** The invariant on configurations: the witness of the top run is the current lookahead. *)
+  Definition la_inv (c : lr_conf) : Prop :=
+    exists w, runs_inv w (c_states c) (c_trees c) /\
+              forall la, w = Some la -> la = lookahead (c_input c).
 
   (** One step preserves it (together with the soundness invariant). *)
   Lemma step_eps toks c c' :
-    Inv g ann toks c -> eps_inv (c_states c) (c_trees c) -> lr_step tb c = Continue c' ->
-    eps_inv (c_states c') (c_trees c').
+    Inv g ann toks c -> la_inv c -> lr_step tb c = Continue c' -> la_inv c'.
   Proof.
-    intros [Hs Hts Hy Hr] He. destruct c as [ss ts inp reds].
+    intros [Hs Hts Hy Hr] (w & He & Hwla). destruct c as [ss ts inp reds].
     cbn [c_states c_trees c_input c_reds] in *. unfold lr_step.
     cbn [c_states c_trees c_input c_reds].
     destruct ss as [|cur below]; [discriminate|].
@@ -764,9 +854,10 @@ Section Termination.
     pose proof (assoc_In _ _ _ Ea) as Ein. specialize (Hacts _ Ein). unfold action_ok in Hacts.
     cbn [fst snd] in Hacts. apply andb_prop in Hacts. destruct Hacts as [_ Hact].
     destruct (nth_error (lr_actions tb) (N.to_nat ai)) as [[next|nt p|]|] eqn:Eact; [| | |discriminate].
-    - (* Shift: a leaf has a non-empty yield *)
-      intros H. inversion H; subst. cbn [c_states c_trees].
-      constructor; [exact He|]. intros Hy'. discriminate.
+    - (* Shift: a leaf has a non-empty yield; the top run is closed *)
+      intros H. inversion H; subst. unfold la_inv. cbn [c_states c_trees c_input].
+      exists None. split; [|intros la Hla; discriminate].
+      apply (ri_solid w); [exact He|]. discriminate.
     - (* Reduce *)
       destruct (handle_ok g tb cur l nt p) as [cs|] eqn:Eh; [|discriminate].
       destruct (handle_pop g tb ann Hchk _ _ _ _ _ _ _ Hs Hl Eh Hts)
@@ -774,39 +865,49 @@ Section Termination.
       rewrite Hcall, Hlt, Hsk.
       destruct (nth_error (lr_states tb) (N.to_nat s)) as [st'|] eqn:Est'; [|discriminate].
       destruct (assoc nt (st_gotos st')) as [gt|] eqn:Egt; [|discriminate].
-      intros H. inversion H; subst c'. cbn [c_states c_trees].
+      intros H. inversion H; subst c'. unfold la_inv. cbn [c_states c_trees c_input].
       assert (Hn : lp_len lp < length (cur :: below)).
       { assert (H0 : length (skipn (lp_len lp) (cur :: below)) = length (s :: rest))
           by (rewrite Hsk; reflexivity).
         rewrite skipn_length in H0. cbn [length] in H0 |- *. lia. }
-      constructor.
-      + rewrite <- Hsk. apply eps_inv_skipn; [exact He|exact Hn].
-      + intros Hy' a Hroot. cbn [root_sym] in Hroot. inversion Hroot; subst a.
-        split; [|rewrite Elhs; unfold goto_of; rewrite Est'; exact Egt].
-        pose proof Hnode as Hnode'. apply tree_ok_node in Hnode'.
-        destruct Hnode' as (_ & Hrhs & Hch). cbn [yield] in Hy'.
-        (* all popped subtrees are empty: they are inner nodes with marked roots *)
-        assert (Hpop : forall c, In c (firstn (lp_len lp) ts) ->
-                                 yield c = [] /\ exists a, root_sym c = NT a).
-        { intros c Hc. rewrite in_rev in Hc.
-          assert (Hyc : yield c = []) by (apply (flat_map_nil_inv _ _ Hy' c Hc)).
-          split; [exact Hyc|]. rewrite Forall_forall in Hch.
-          destruct (eps_tree g nl rk Hac c (Hch c Hc) Hyc) as (pc & csc & -> & _).
-          exists (lhs pc). reflexivity. }
-        assert (Hall : forallb (null_sym nl) (rhs pr) = true).
-        { rewrite <- Hrhs. clear Hrhs Hpop. revert Hch Hy'.
-          generalize (rev (firstn (lp_len lp) ts)). intros chs Hch Hy'.
-          induction Hch as [|ch chs Hc _ IH]; [reflexivity|].
-          simpl in Hy'. apply app_eq_nil in Hy'. destruct Hy' as [Hy1 Hy2].
-          simpl. rewrite (eps_root_null g nl rk Hac ch Hc Hy1). apply IH. exact Hy2. }
-        destruct (eps_inv_chain (lp_len lp) (cur :: below) ts cur below He eq_refl Hn Hpop)
-          as (t0 & rest0 & Hsk0 & Hchain).
-        rewrite Hsk in Hsk0. inversion Hsk0; subst t0 rest0.
-        specialize (Hchain [] cur eq_refl). rewrite app_nil_r, Hrhs in Hchain.
-        apply (eps_closed_spec g tb nl E p pr s st' cur Hclosed Epr Hall Est' Hchain).
-        (* the reducing state has the action that was just taken *)
-        unfold has_reduce. rewrite Hst. apply existsb_exists. exists (lookahead inp, ai).
-        split; [exact Ein|]. cbn [snd]. rewrite Eact, Elhs, !N.eqb_refl. reflexivity.
+      set (la := lookahead inp) in *.
+      destruct (yield (Node pr (rev (firstn (lp_len lp) ts)))) as [|y ys] eqn:Hy'.
+      2:{ (* non-empty result: the runs below are untouched *)
+          destruct (runs_inv_skipn (lp_len lp) w (cur :: below) ts He Hn) as (w' & Hinv).
+          rewrite Hsk in Hinv. exists None. split; [|intros la0 Hla0; discriminate].
+          apply (ri_solid w'); [exact Hinv|]. rewrite Hy'. discriminate. }
+      (* empty result: all popped subtrees are empty, they are inner nodes with marked roots *)
+      pose proof Hnode as Hnode'. apply tree_ok_node in Hnode'.
+      destruct Hnode' as (_ & Hrhs & Hch). cbn [yield] in Hy'.
+      assert (Hpop : forall c, In c (firstn (lp_len lp) ts) ->
+                               yield c = [] /\ exists a, root_sym c = NT a).
+      { intros c Hc. rewrite in_rev in Hc.
+        assert (Hyc : yield c = []) by (apply (flat_map_nil_inv _ _ Hy' c Hc)).
+        split; [exact Hyc|]. rewrite Forall_forall in Hch.
+        destruct (eps_tree g nl rk Hac c (Hch c Hc) Hyc) as (pc & csc & -> & _).
+        exists (lhs pc). reflexivity. }
+      assert (Hall : forallb (null_sym nl) (rhs pr) = true).
+      { rewrite <- Hrhs. clear Hrhs Hpop. revert Hch Hy'.
+        generalize (rev (firstn (lp_len lp) ts)). intros chs Hch Hy'.
+        induction Hch as [|ch chs Hc _ IH]; [reflexivity|].
+        simpl in Hy'. apply app_eq_nil in Hy'. destruct Hy' as [Hy1 Hy2].
+        simpl. rewrite (eps_root_null g nl rk Hac ch Hc Hy1). apply IH. exact Hy2. }
+      assert (Hw : w = None \/ w = Some la).
+      { destruct w as [la0|]; [right|left; reflexivity]. rewrite (Hwla la0 eq_refl). reflexivity. }
+      destruct (runs_inv_chain la (lp_len lp) w (cur :: below) ts cur below He eq_refl Hn Hw Hpop)
+        as (t0 & rest0 & w' & Hsk0 & Hinv & Hw' & Hchain).
+      rewrite Hsk in Hsk0. inversion Hsk0; subst t0 rest0.
+      specialize (Hchain [] cur eq_refl). rewrite app_nil_r, Hrhs in Hchain.
+      exists (Some la). split; [|intros la0 Hla0; inversion Hla0; reflexivity].
+      apply (ri_eps w' la gt s rest _ _ (lhs pr)); [exact Hinv|exact Hy'|reflexivity| | |exact Hw'].
+      + apply (eps_closed_spec g tb nl E la p pr s st' cur Hclosed); try assumption.
+        * (* the current lookahead is an action key of the reducing state *)
+          unfold table_las. apply dedupN_In. right. apply in_flat_map. exists st.
+          split; [apply (nth_error_In _ _ Hst)|]. apply in_map_iff. exists (la, ai).
+          split; [reflexivity|exact Ein].
+        * (* the action taken is the action of the reducing state for the lookahead *)
+          unfold red_on. rewrite Hst. fold la in Ea. rewrite Ea, Eact, Elhs, !N.eqb_refl. reflexivity.
+      + rewrite Elhs. unfold goto_of. rewrite Est'. exact Egt.
     - destruct (find_start_prod tb) as [p0|]; [|discriminate].
       destruct (call_action tb p0 ts) as [site|[n ts']]; discriminate.
   Qed.
@@ -820,35 +921,50 @@ Section Termination.
     destruct (is_eps t); simpl; lia.
   Qed.
 
-  (** Entries with an empty subtree come in runs of at most [K]. *)
-  Lemma stack_runs ss ts : stack_inv ann ss ts -> eps_inv ss ts -> Forall (tree_ok g) ts ->
-    exists s ss', ss = s :: ss' /\ ecount ts + rkn srk s <= K * (ycount ts + 1).
+  Definition pot (w : option N) (s : N) : nat :=
+    match w with Some la => rkn (ranks_for srk la) s | None => K end.
+
+  Lemma rkn_le_K la s : rkn (ranks_for srk la) s <= K.
+  Proof. etransitivity; [apply rkn_le_max|apply ranks_for_le]. Qed.
+
+  (** Every run of entries with an empty subtree has length at most [K]. *)
+  Lemma stack_runs ss ts : stack_inv ann ss ts -> forall w, runs_inv w ss ts ->
+    Forall (tree_ok g) ts ->
+    exists s ss', ss = s :: ss' /\ ecount ts + pot w s <= K * (ycount ts + 1).
   Proof.
-    induction 1 as [|s ss t ts l Hs IH Hne Hl Hm]; intros He Hok.
+    induction 1 as [|s ss t ts l Hs IH Hne Hl Hm]; intros w He Hok.
     - exists 0%N, []. split; [reflexivity|]. unfold ecount, ycount. simpl.
-      pose proof (rkn_le_max srk 0%N). fold K in H. lia.
+      inversion He; subst. simpl. lia.
     - inversion Hok as [|t0 ts0 Hokt Hokts]; subst.
-      inversion He as [s0|s0' s1 ss' t0 ts0 He' Hedge]; subst.
-      destruct (IH He' Hokts) as (s1' & ss'' & Eq1 & IH'). inversion Eq1; subst s1' ss''.
-      exists s, (s1 :: ss'). split; [reflexivity|].
-      unfold ecount, ycount in *. simpl.
-      destruct (is_eps t) eqn:Eie; simpl.
-      + assert (Ey : yield t = [])
-          by (unfold is_eps in Eie; destruct (yield t); [reflexivity|discriminate]).
-        clear Eie. destruct (eps_tree g nl rk Hac t Hokt Ey) as (p & cs & -> & Hmark & _).
-        destruct l as [|[x c] l']; [|].
-        { (* empty annotation: excluded by the check *)
-          contradiction Hne. apply (stack_rank_ok_nonempty g tb nl ann E srk s Hsr Hl). }
-        simpl in Hm. destruct Hm as (Hroot & Hin & _). cbn [root_sym] in Hroot. subst x.
-        pose proof (stack_rank_ok_spec g tb nl ann E srk s (lhs p) c l' s1 Hsr Hl Hne Hmark Hin
-                      (proj1 (Hedge Ey (lhs p) eq_refl))) as Hlt.
-        assert (Hlt' : rkn srk s < rkn srk s1).
+      inversion He as [s0|w0 s0' s1 ss' t0 ts0 He' Hy|w0 la s0' s1 ss' t0 ts0 a He' Hy Hroot Hedge Hg Hw];
+        subst.
+      + (* non-empty entry *)
+        destruct (IH w0 He' Hokts) as (s1' & ss'' & Eq1 & IH'). inversion Eq1; subst s1' ss''.
+        exists s, (s1 :: ss'). split; [reflexivity|].
+        unfold ecount, ycount in *. simpl.
+        assert (Eie : is_eps t = false) by (unfold is_eps; destruct (yield t); [contradiction Hy; reflexivity|reflexivity]).
+        rewrite Eie. simpl. lia.
+      + (* empty entry of a run with lookahead [la] *)
+        destruct (IH w0 He' Hokts) as (s1' & ss'' & Eq1 & IH'). inversion Eq1; subst s1' ss''.
+        exists s, (s1 :: ss'). split; [reflexivity|].
+        unfold ecount, ycount in *. simpl.
+        assert (Eie : is_eps t = true) by (unfold is_eps; rewrite Hy; reflexivity).
+        rewrite Eie. simpl.
+        destruct (eps_tree g nl rk Hac t Hokt Hy) as (p & cs & -> & Hmark & _).
+        cbn [root_sym] in Hroot. inversion Hroot; subst a.
+        destruct l as [|[x c] l'].
+        { contradiction Hne. apply (stack_rank_ok_nonempty g tb nl ann E srk s Hsr Hl). }
+        simpl in Hm. destruct Hm as (Hroot' & Hin & _). cbn [root_sym] in Hroot'. subst x.
+        pose proof (stack_rank_ok_spec g tb nl ann E srk la s (lhs p) c l' s1 Hsr Hl Hmark Hin Hedge)
+          as Hlt.
+        assert (Hlt' : rkn (ranks_for srk la) s < rkn (ranks_for srk la) s1).
         { unfold srk_lt in Hlt. unfold rkn, rk_of.
-          destruct (nth_error srk (N.to_nat s)) as [r'|]; [|discriminate].
-          destruct (nth_error srk (N.to_nat s1)) as [r|]; [|discriminate].
+          destruct (nth_error (ranks_for srk la) (N.to_nat s)) as [r'|]; [|discriminate].
+          destruct (nth_error (ranks_for srk la) (N.to_nat s1)) as [r|]; [|discriminate].
           apply N.ltb_lt in Hlt. lia. }
+        assert (Hpot : rkn (ranks_for srk la) s1 <= pot w0 s1).
+        { destruct Hw as [->| ->]; simpl; [apply rkn_le_K|lia]. }
         lia.
-      + pose proof (rkn_le_max srk s). fold K in H. lia.
   Qed.
 
   Lemma solid_yield ts : ycount ts <= length (flat_map yield ts).
@@ -867,16 +983,15 @@ Section Termination.
   Qed.
 
   Lemma inv_progress toks c :
-    Inv g ann toks c -> eps_inv (c_states c) (c_trees c) ->
-    progress c <= step_bound g rk srk (length toks).
+    Inv g ann toks c -> la_inv c -> progress c <= step_bound g rk K (length toks).
   Proof.
-    intros [Hs Hts Hy Hr] He. unfold progress, step_bound. fold K W D.
+    intros [Hs Hts Hy Hr] (w & He & _). unfold progress, step_bound. fold W D.
     assert (Hreds : length (c_reds c) = length (flat_map postorder (c_trees c))).
     { unfold prod_numbers_ok in Hr. apply Forall2_len in Hr.
       rewrite rev_length, flat_map_rev_length in Hr. symmetry. exact Hr. }
     assert (HY : length (flat_map yield (c_trees c)) <= length toks).
     { rewrite <- Hy, app_length, flat_map_rev_length. lia. }
-    destruct (stack_runs _ _ Hs He Hts) as (s & ss' & _ & Hrun).
+    destruct (stack_runs _ _ Hs w He Hts) as (s & ss' & _ & Hrun).
     pose proof (solid_yield (c_trees c)) as Hsol.
     pose proof (forest_nodes _ Hts) as Hn.
     pose proof (count_split (c_trees c)) as Hsplit.
@@ -890,8 +1005,8 @@ Section Termination.
   Qed.
 
   Lemma loop_terminates toks : forall fuel c,
-    Inv g ann toks c -> eps_inv (c_states c) (c_trees c) ->
-    step_bound g rk srk (length toks) < fuel + progress c ->
+    Inv g ann toks c -> la_inv c ->
+    step_bound g rk K (length toks) < fuel + progress c ->
     lr_loop fuel tb c <> OutOfFuel.
   Proof.
     induction fuel as [|fuel IH]; intros c Hc He Hlt.
@@ -912,7 +1027,8 @@ Theorem lr_terminates : forall g tb ann nl rk E srk toks,
   lr_run (lr_fuel_bound g rk srk toks) tb toks <> OutOfFuel.
 Proof.
   intros g tb ann nl rk E srk toks Hchk Hac Hsr. unfold lr_run, lr_fuel_bound.
-  apply (loop_terminates g tb ann nl rk E srk Hchk Hac Hsr toks); [apply init_inv|constructor|].
+  apply (loop_terminates g tb ann nl rk E srk Hchk Hac Hsr toks); [apply init_inv| |].
+  { exists None. split; [constructor|intros la H; discriminate]. }
   unfold progress. simpl. lia.
 Qed.
 
@@ -957,19 +1073,23 @@ Definition eps_ann : annotation :=
 Example eps_cert : find_acyclic_cert eps_g = ([true; true], [1; 0]%N).
 Proof. vm_compute. reflexivity. Qed.
 
-Example eps_eps_set : find_eps_set eps_g eps_tb [true; true] = [(0, 1)]%N.
+Example eps_eps_set :
+  find_eps_set eps_g eps_tb [true; true] = [(0, 0, 1); (5, 0, 1)]%N.
 Proof. vm_compute. reflexivity. Qed.
 
-Example eps_stack_ranks : find_stack_ranks [true; true] eps_ann [(0, 1)]%N = [1; 0; 0]%N.
+Example eps_stack_ranks :
+  find_stack_ranks [true; true] eps_ann [(0, 0, 1); (5, 0, 1)]%N
+  = [(0, [1; 0; 0]); (5, [1; 0; 0])]%N.
 Proof. vm_compute. reflexivity. Qed.
 
 Example eps_terminates_instance :
   let nl := fst (find_acyclic_cert eps_g) in
   let E := find_eps_set eps_g eps_tb nl in
+  let srk := find_stack_ranks nl eps_ann E in
   lr_safe_check eps_g eps_tb eps_ann = true /\
   acyclic_ok eps_g nl (snd (find_acyclic_cert eps_g)) = true /\
-  stack_rank_ok eps_g eps_tb nl eps_ann E (find_stack_ranks nl eps_ann E) = true /\
-  lr_fuel_bound eps_g [1; 0]%N [1; 0; 0]%N [5; 5]%N = 94 /\
+  stack_rank_ok eps_g eps_tb nl eps_ann E srk = true /\
+  lr_fuel_bound eps_g [1; 0]%N srk [5; 5]%N = 94 /\
   exists t, lr_run 94 eps_tb [5; 5]%N = Accepted [2; 1; 1; 0]%N [t].
 Proof.
   split; [vm_compute; reflexivity|]. split; [vm_compute; reflexivity|].
@@ -1020,21 +1140,20 @@ Definition amb_ann : annotation :=
   match infer_annotation 20 amb_tb with Some a => a | None => [] end.
 
 Example amb_terminates_instance :
+  let E := find_eps_set amb_g amb_tb [true; true] in
+  let srk := find_stack_ranks [true; true] amb_ann E in
   lr_safe_check amb_g amb_tb amb_ann = true /\
   find_acyclic_cert amb_g = ([true; true], [0; 1]%N) /\
   acyclic_ok amb_g [true; true] [0; 1]%N = true /\
-  find_eps_set amb_g amb_tb [true; true] = [(1, 0); (0, 0)]%N /\
-  find_stack_ranks [true; true] amb_ann [(1, 0); (0, 0)]%N = [2; 1; 0; 0]%N /\
-  stack_rank_ok amb_g amb_tb [true; true] amb_ann [(1, 0); (0, 0)]%N [2; 1; 0; 0]%N = true /\
+  E = [(0, 0, 0); (5, 1, 0); (5, 0, 0)]%N /\
+  srk = [(0, [1; 0; 0; 0]); (5, [2; 1; 0; 0])]%N /\
+  stack_rank_ok amb_g amb_tb [true; true] amb_ann E srk = true /\
   (* the self-edge of state 2 is there, but it is not an edge for empty subtrees *)
   nth_error amb_ann 2 = Some [(NT 0%N, [2; 1]%N); (NT 0%N, [2; 1; 0]%N)] /\
-  exists reds t, lr_run (lr_fuel_bound amb_g [0; 1]%N [2; 1; 0; 0]%N [5; 5]%N) amb_tb [5; 5]%N
+  exists reds t, lr_run (lr_fuel_bound amb_g [0; 1]%N srk [5; 5]%N) amb_tb [5; 5]%N
                  = Accepted reds [t].
 Proof.
-  split; [vm_compute; reflexivity|]. split; [vm_compute; reflexivity|].
-  split; [vm_compute; reflexivity|]. split; [vm_compute; reflexivity|].
-  split; [vm_compute; reflexivity|]. split; [vm_compute; reflexivity|].
-  split; [vm_compute; reflexivity|]. eexists. eexists. vm_compute. reflexivity.
+  vm_compute. repeat (split; [reflexivity|]). eexists. eexists. reflexivity.
 Qed.
 
 (** *** A second real table: nullable through a chain
@@ -1071,12 +1190,61 @@ Example bae_terminates_instance :
   lr_safe_check bae_g bae_tb bae_ann = true /\
   nl = [true; true; true] /\ rk = [0; 1; 1]%N /\
   acyclic_ok bae_g nl rk = true /\
-  E = [(0, 2); (0, 0)]%N /\
-  srk = [1; 0; 0; 0; 0; 0]%N /\
+  E = [(0, 0, 0)]%N /\
+  srk = [(0, [1; 0; 0; 0; 0; 0])]%N /\
   stack_rank_ok bae_g bae_tb nl bae_ann E srk = true /\
   (* state 3 may sit on itself with incoming symbol B, a marked non-terminal *)
   nth_error bae_ann 3 = Some [(NT 2%N, [3; 0]%N)] /\
-  exists reds t, lr_run (lr_fuel_bound bae_g rk srk [5; 5; 5]%N) bae_tb [5; 5; 5]%N = Accepted reds [t].
+  exists reds t, lr_run (lr_fuel_bound bae_g rk srk [5; 5; 5]%N) bae_tb [5; 5; 5]%N
+                 = Accepted reds [t].
+Proof.
+  vm_compute. repeat (split; [reflexivity|]). eexists. eexists. reflexivity.
+Qed.
+
+(** *** A third real table: a cycle that needs two different lookaheads
+
+    [S' -> A; A -> B A a | ; B -> b b | A] in the driver's numbering: non-terminals 0 = A,
+    1 = S' (start), 2 = B; terminals 5 = a, 6 = b; productions 0: [S' -> A], 1: [A -> B A a],
+    2: [A -> ], 3: [B -> b b], 4: [B -> A].  State 3 (entered on [B]) reduces [A -> ] on
+    lookahead [a] and goes to state 5, which reduces [B -> A] on lookahead [b] only; the goto of
+    state 3 on [B] is state 3 again.  A lookahead-insensitive set would contain [(3, B)] and
+    demand [srk 3 < srk 3]; but while empty entries are stacked the lookahead cannot change,
+    and under neither lookahead the cycle closes: [(a, 3, A)] is in the least closed set,
+    [(a, 3, B)] and [(b, 3, A)] are not. *)
+Definition dla_g : cfg :=
+  mkCfg 1 [mkProd 1 [NT 0%N]; mkProd 0 [NT 2%N; NT 0%N; T 5%N]; mkProd 0 [];
+           mkProd 2 [T 6%N; T 6%N]; mkProd 2 [NT 0%N]].
+
+Definition dla_tb : lr_table :=
+  mkLRTable
+    [Reduce 0 2; Shift 1; Shift 4; Accept; Reduce 2 4; Reduce 2 3; Shift 6; Reduce 0 1]
+    [ mkLRState [(0, 0); (5, 0); (6, 1)] [(0, 2); (2, 3)];
+      mkLRState [(6, 2)] [];
+      mkLRState [(0, 3); (5, 4); (6, 4)] [];
+      mkLRState [(5, 0); (6, 1)] [(0, 5); (2, 3)];
+      mkLRState [(5, 5); (6, 5)] [];
+      mkLRState [(5, 6); (6, 4)] [];
+      mkLRState [(0, 7); (5, 7); (6, 7)] [] ]%N
+    [mkLRProd 1 1; mkLRProd 0 3; mkLRProd 0 0; mkLRProd 2 2; mkLRProd 2 1]
+    1 7 3.
+
+Definition dla_ann : annotation :=
+  match infer_annotation 20 dla_tb with Some a => a | None => [] end.
+
+Example dla_terminates_instance :
+  let (nl, rk) := find_acyclic_cert dla_g in
+  let E := find_eps_set dla_g dla_tb nl in
+  let srk := find_stack_ranks nl dla_ann E in
+  lr_safe_check dla_g dla_tb dla_ann = true /\
+  nl = [true; true; true] /\ rk = [0; 1; 1]%N /\
+  acyclic_ok dla_g nl rk = true /\
+  E = [(0, 0, 0); (5, 0, 2); (5, 3, 0); (5, 0, 0)]%N /\
+  srk = [(0, [1; 0; 0; 0; 0; 0; 0]); (5, [2; 0; 0; 1; 0; 0; 0])]%N /\
+  stack_rank_ok dla_g dla_tb nl dla_ann E srk = true /\
+  (* state 3 may sit on itself with incoming symbol B, a marked non-terminal *)
+  nth_error dla_ann 3 = Some [(NT 2%N, [3; 0]%N)] /\
+  exists reds t, lr_run (lr_fuel_bound dla_g rk srk [6; 6; 5; 5]%N) dla_tb [6; 6; 5; 5]%N
+                 = Accepted reds [t].
 Proof.
   vm_compute. repeat (split; [reflexivity|]). eexists. eexists. reflexivity.
 Qed.
@@ -1198,21 +1366,23 @@ Proof.
   destruct (H g tb ann nl rk H1 H2 toks) as (fuel & Hf). apply Hf. apply H3.
 Qed.
 
-(** The table certificate catches it: state 1 reduces [A -> ] and goes to itself on [A], so
-    [(1, A)] is in every closed set, and no state ranking passes. *)
+(** The table certificate catches it: under lookahead 5 state 1 reduces [A -> ] and goes to
+    itself on [A], so [(5, 1, A)] is in every closed set, and no state ranking passes. *)
 Example mal_no_stack_ranks :
   forall E srk, stack_rank_ok mal_g mal_tb [false; true] mal_ann E srk = false.
 Proof.
   intros E srk. apply not_true_iff_false. intros H.
   assert (Hc : eps_closed mal_g mal_tb [false; true] E = true).
-  { unfold stack_rank_ok in H. apply andb_prop in H. apply H. }
-  assert (He : eps_edge E 1 1 = true).
-  { apply (eps_closed_spec mal_g mal_tb [false; true] E 1 (mkProd 1 []) 1
-             (mkLRState [(5, 0)] [(1, 1)])%N 1 Hc); reflexivity. }
-  assert (Hlt : srk_lt srk 1 1 = true).
-  { apply (stack_rank_ok_spec mal_g mal_tb [false; true] mal_ann E srk 1 1 [0; 1]%N [] 1%N H);
-      [reflexivity|discriminate|reflexivity|right; left; reflexivity|exact He]. }
-  unfold srk_lt in Hlt. destruct (nth_error srk (N.to_nat 1)); [|discriminate].
+  { unfold stack_rank_ok in H. apply andb_prop in H. destruct H as [H _].
+    apply andb_prop in H. apply H. }
+  assert (Hla : In 5%N (table_las mal_tb)) by (vm_compute; auto).
+  assert (He : eps_edge E 5 1 1 = true).
+  { apply (eps_closed_spec mal_g mal_tb [false; true] E 5 1 (mkProd 1 []) 1
+             (mkLRState [(5, 0)] [(1, 1)])%N 1 Hc Hla); reflexivity. }
+  assert (Hlt : srk_lt (ranks_for srk 5) 1 1 = true).
+  { apply (stack_rank_ok_spec mal_g mal_tb [false; true] mal_ann E srk 5 1 1 [0; 1]%N [] 1%N H);
+      [reflexivity|reflexivity|right; left; reflexivity|exact He]. }
+  unfold srk_lt in Hlt. destruct (nth_error (ranks_for srk 5) (N.to_nat 1)); [|discriminate].
   rewrite N.ltb_irrefl in Hlt. discriminate.
 Qed.
 
